@@ -74,7 +74,10 @@ func validateEndBuf(src []byte, cursor int64) error {
 			cursor++
 			continue
 		case nul:
-			return nil
+			if cursor == int64(len(src)-1) {
+				// the terminating nul appended to the private copy of the input
+				return nil
+			}
 		}
 		return errors.ErrSyntax(
 			fmt.Sprintf("invalid character '%c' after top-level value", src[cursor]),
